@@ -87,7 +87,7 @@ def decode_case(ctx, mon, desc, inst, encs, perm, enc_id, y):
     ctx.case()
     if y is None:
         y = Packing(inst)
-    encs[enc_id].decode(wb.x_array(perm, inst), y)
+    encs[enc_id].decode(wb.x_buffer(perm, inst), y)
     mon.current = None
     f = forced(desc, perm)
     if f:
